@@ -157,4 +157,3 @@ func bindParams(f *ssa.Function, vals map[int]constant.Value) func(ssa.Value) (c
 		return nil, false
 	}
 }
-
